@@ -28,6 +28,7 @@ import (
 	"bytes"
 	"encoding/hex"
 	"fmt"
+	"io"
 	"math"
 	"os"
 	"reflect"
@@ -110,11 +111,21 @@ func valueEqual(a, b value.Value) bool {
 // roundtrip evaluates the oracle for one value and one delivery; it returns
 // "" or the violated clause.
 func roundtrip(rd *enum.FragReader, v value.Value, dl delivery) (clause, detail string, enc []byte) {
+	return roundtripFrom(v, func(enc []byte) (io.Reader, func() int) {
+		rd.Reset(enc, nil, dl.mode, dl.chunk)
+		return rd, rd.Pos
+	})
+}
+
+// roundtripFrom is the oracle over any reader: open receives the encoding
+// and returns the reader handed to NewValue and the function that tells how
+// many bytes of the encoding (and of what follows it) were taken from it.
+func roundtripFrom(v value.Value, open func(enc []byte) (io.Reader, func() int)) (clause, detail string, enc []byte) {
 	enc, err := encodeValue(v)
 	if err != nil {
 		return "write-error", fmt.Sprintf("Write returned %v", err), enc
 	}
-	rd.Reset(enc, nil, dl.mode, dl.chunk)
+	rd, taken := open(enc)
 	var got value.Value
 	func() {
 		defer func() {
@@ -134,12 +145,12 @@ func roundtrip(rd *enum.FragReader, v value.Value, dl delivery) (clause, detail 
 	if got == nil {
 		return "decode-nil", "NewValue returned a nil value and a nil error", enc
 	}
-	if rd.Pos() != len(enc) {
+	if n := taken(); n != len(enc) {
 		k := "over"
-		if rd.Pos() < len(enc) {
+		if n < len(enc) {
 			k = "under"
 		}
-		return "consumed-" + k, fmt.Sprintf("decoder consumed %d bytes, the encoder produced %d", rd.Pos(), len(enc)), enc
+		return "consumed-" + k, fmt.Sprintf("decoder consumed %d bytes, the encoder produced %d", n, len(enc)), enc
 	}
 	if got.Signature() != v.Signature() {
 		return "signature-differs", fmt.Sprintf("decoded value has signature %q, original %q", got.Signature(), v.Signature()), enc
@@ -561,10 +572,11 @@ var (
 	nlists, nsigs int
 	nvals         int64
 	obs           map[string]string
+	lengthSweep   map[string]interface{}
 )
 
 func main() {
-	run = enum.NewRun("C02", 40*time.Second, 8*time.Minute)
+	run = enum.NewRun("C02", 75*time.Second, 11*time.Minute)
 	depth := 2
 	if run.Thorough() {
 		depth = 3
@@ -572,24 +584,32 @@ func main() {
 	finish := func() int {
 		rule := "families: constructor = 13 constructors x Val(T); list = every value.List nested to depth D with 0..2 elements drawn from 11 base values " +
 			"(scalars, string, raw, void, 4 opaque composites) and the lists of the previous depth (at most one nested list per list); " +
-			"opaque = every composite signature of Sig(D,2) (outer atoms c C w W i I l L f d b s m; plus 11 fixed signatures containing o) x every datum of Val(sig) encoded by the reference model (depth-3 signatures: distinguished and zero value only, 2 deliveries); opaque-atom = 14 atom signatures x Val. " +
+			"opaque = every composite signature of Sig(D,2) (outer atoms c C w W i I l L f d b s m; plus 11 fixed signatures containing o) x every datum of Val(sig) encoded by the reference model (depth-3 signatures: distinguished and zero value only, 2 deliveries); opaque-atom = 14 atom signatures x Val; " +
+			"length-sweep = the variable-length leaves s (string of n bytes), r (raw buffer of n bytes), m-signature (opaque value whose signature string has n >= 1 bytes), list (opaque [C] of n <= 4096 elements), value-list (value.List of n <= 4096 integers) " +
+			"x every length 0..300 (s, r, m-signature taken alone: every length 0..4200) and, around every power of two from 512 to 64 KiB (thorough: 1 MiB), 2^k-1, 2^k, 2^k+1 and 2^k+2^(k-1), plus 70000 (thorough: s and r alone and at value.List(x, Int), m-signature alone, at every length 0..70000 under the delivery sentinel follows/unfragmented) " +
+			"x the positions alone, value.List(x, Int), value.List(Int, x), Opaque (i t), Opaque (t i), Opaque [t, t'], Opaque ([m<t>, m<i>]) (r: the first three only; coverage.length_sweep lists positions and lengths per leaf) - the full product, no subset - with position-dependent content without period, " +
+			"each value under 9 deliveries (the 6 below, sentinel follows/4093-byte reads, *bytes.Buffer and *bufio.Reader over the encoding and a sentinel); a failure is attributed to the smallest failing length (bisection between enumerated lengths). " +
 			"Every value is evaluated under 6 deliveries ({data+EOF, EOF separate, 8 sentinel bytes follow} x {unfragmented, 1 byte per read}), opaque composites under 3 (exact buffer with data+EOF; sentinel follows; 1 byte per read with a separate EOF); evaluations counts (value, delivery) pairs. " +
-			"A case class is (family, signature shape with struct names dropped | constructor letter and encoding length | list depth, length and element kinds, outcome); " +
+			"A case class is (family, signature shape with struct names dropped | constructor letter and encoding length | list depth, length and element kinds | length-sweep: leaf, position and length class (0..300, 301..4200, power-of-two neighbourhood), outcome); " +
 			"distinct_nontrivial counts the distinct classes executed"
 		extra := map[string]interface{}{
 			"depth": depth, "opaque_composite_signatures": nsigs, "opaque_values": nvals, "list_values": nlists,
 			"deliveries_per_value": len(deliveries), "deliveries_per_opaque_value": len(opaqueDeliveries), "observations_not_decided": obs,
+			"length_sweep": lengthSweep,
 		}
 		assumptions := []string{
 			"opaque data are produced by the reference model written from doc/about-qimessaging.md; 'r' is taken as count + bytes; 8/16-bit integers as little-endian fixed width",
 			"top-level value.Opaque(\"m\", ...) and value.Opaque(\"o\", ...) are observed but not decided: the statement speaks of composite signatures carried opaquely (NewValue unwraps \"m\" and expands \"o\" to the ObjectReference signature)",
 			"composite signatures containing 'r' or 'X' or 'v' are not enumerated: the repository's signature grammar has no 'r' atom; 'X' has no serialization",
 			"dynamic values nested in opaque data carry i, s, b, C, d, [i], (is), {sI}, v, [s] at nesting level <= 1 and i, s, [i] deeper; a value whose concrete type is itself 'm' is not enumerated",
+			"length-sweep: thresholds on the length of a leaf are looked for at every length up to 300 (4200 for a string, a raw buffer or a signature alone) and next to the powers of two up to 64 KiB (thorough 1 MiB; thorough also every length up to 70000 for a string, a raw buffer and a signature alone); a defect that only shows for lengths in a narrow band elsewhere is not reached; lengths above 1 MiB + 1 (the codec accepts 10 MiB) and lists above the documented cap of 4096 entries are not enumerated",
 			"a decode that does not return within the hang limit (5 executions) is reported as a violation with the clause 'hang' and ends the enumeration",
 		}
 		return run.Finish(rule, true, extra, assumptions)
 	}
 	run.SetAbortFinish(15*time.Second, finish)
+	// the length sweep first: a fixed set of values, never cut by the deadline
+	lengthSweep = familyLengthSweep(run.Thorough())
 	familyConstructors()
 	obs = familyOpaqueAtoms()
 	nlists = familyLists(depth)
